@@ -1404,6 +1404,7 @@ bool c07parts::part4(std::string const& op, Toks& in, Out& impl, Out& ref)
     if (op == "exp.il") { return run_expected<int, long>(in, impl, ref), true; }
     if (op == "exp.tt") { return run_expected<Tracked, Tracked2>(in, impl, ref), true; }
     if (op == "exp.ti") { return run_expected<Tracked, int>(in, impl, ref), true; }
+    if (op == "exp.ii") { return run_expected<int, int>(in, impl, ref), true; } // variant<int, int> underneath
     if (op == "unx.il") { return run_unexpected<int, long>(in, impl, ref), true; }
     if (op == "unx.tt") { return run_unexpected<Tracked, Tracked2>(in, impl, ref), true; }
     return false;
@@ -1415,6 +1416,7 @@ bool c07parts::part5(std::string const& op, Toks& in, Out& impl, Out& ref)
     if (op == "opt.is") { return run_optional<int, short>(in, impl, ref), true; }
     if (op == "opt.ti") { return run_optional<Tracked, int>(in, impl, ref), true; }
     if (op == "opt.t2") { return run_optional<Tracked2, Tracked>(in, impl, ref), true; }
+    if (op == "opt.ib") { return run_optional<int, bool>(in, impl, ref), true; }
     if (op == "ref.i") { return run_optref<int, false>(in, impl, ref), true; }
     if (op == "ref.t") { return run_optref<Tracked, false>(in, impl, ref), true; }
     if (op == "cref.i") { return run_optref<int, true>(in, impl, ref), true; }
